@@ -331,6 +331,26 @@ def run(chk, tier):
     want_st = ["((self.state Eq dicom_object::collector::CollectorState::Start) Or (self.state Eq dicom_object::collector::CollectorState::Preamble))",
                "(self.state Ne dicom_object::collector::CollectorState::InPixelData)"]
     chk.expect(st == want_st, "collector-portions", "read_next_fragment", "state-tests", want_st, st, loc=C.fn_loc(hf))
+    hb = coll("read_basic_offset_table")
+    stb = [H.show(x[2], 7) for x in H.walk(hb["body"]) if H.kind(x) == "if" and "CollectorState" in H.show(x[2], 7)]
+    want_stb = ["(self.state Eq dicom_object::collector::CollectorState::InPixelData)"] + want_st
+    chk.expect(stb == want_stb, "collector-portions", "read_basic_offset_table", "state-tests", want_stb, stb, loc=C.fn_loc(hb))
+    # both skip to the pixel data with the same predicate: a PixelData element header of defined length, or the start of a pixel sequence
+    preds = {}
+    for nm_, hh in (("read_next_fragment", hf), ("read_basic_offset_table", hb)):
+        cl = []
+        for x in H.walk(hh["body"]):
+            if H.kind(x) == "mcall" and x[3] == "skip_until":
+                for a in x[5]:
+                    arms_ = [H.show_pat(arm[0]) + (" if " + H.show(arm[1], 12) if arm[1] is not None else "") + " => " + H.show(arm[2], 6) for m_ in H.walk(a) if H.kind(m_) == "match" for arm in m_[4]]
+                    cl.append(" ; ".join(arms_))
+        preds[nm_] = cl[0] if len(cl) == 1 else None
+    ref_p = preds["read_next_fragment"] or ""
+    ok_p = preds["read_next_fragment"] is not None and preds["read_next_fragment"] == preds["read_basic_offset_table"] \
+        and "((header.tag Eq dicom_dictionary_std::tags::PIXEL_DATA) And header.length().is_defined())" in ref_p and "PixelSequenceStart" in ref_p \
+        and re.search(r"PixelSequenceStart => true", ref_p) is not None and re.search(r"_ => false", ref_p) is not None
+    chk.expect(ok_p, "collector-portions", "skip-to-pixel-data", "same-predicate", "ElementHeader(h) if h.tag == PIXEL_DATA && h.length().is_defined() => true, PixelSequenceStart => true, _ => false",
+               {k: (v or "")[:200] for k, v in preds.items()})
     from . import shared
     shared.collector_preamble(chk, fx, "collector-preamble")
     chk.undecided.append("equality of the values and of the token sequence on concrete streams; collector portions split at arbitrary tags (covered structurally by the stop comparators)")
